@@ -1122,7 +1122,14 @@ class Network:
             self, state: ConnectionState, connection: PeerConnection,
             close_reason: CloseReason = CloseReason.UNKNOWN):
 
-        if state == ConnectionState.CLOSED:
+        if state == ConnectionState.CONNECTED:
+            # Connections we make are registered when they are created, an
+            # accepted connection when it is reported: before the listeners of
+            # that event, who can suspend or close the connection again
+            if connection not in self.peer_connections:
+                self.peer_connections.append(connection)
+
+        elif state == ConnectionState.CLOSED:
             self.remove_peer_connection(connection)
 
     # Peer related
@@ -1143,8 +1150,6 @@ class Network:
 
         :param connection: the accepted :class:`.PeerConnection`
         """
-        self.peer_connections.append(connection)
-
         try:
             peer_init_message = await connection.receive_message_object()
             if not peer_init_message:
